@@ -337,6 +337,8 @@ class Module:
             return build_mr_reply(req.service, ST_CONN_FAIL, ext=(0x0311,))
         if not (len(rest) == 2 and rest[0][:3] == ("logical", "class", 2)
                 and rest[1][:3] == ("logical", "instance", 1)):
+            world.hits.hit("C09", "path.denotes", f"Forward Open connection path ends in {rest}, not in the message router "
+                           f"(class 2, instance 1)", kind="fo_destination", rw="fo", unresolved=False)
             return build_mr_reply(req.service, ST_CONN_FAIL, ext=(0x0315,))
         if (trigger & 0x0F) != 3 or not (trigger & 0x80):
             return build_mr_reply(req.service, ST_CONN_FAIL, ext=(0x0103,))
@@ -644,7 +646,8 @@ class EipEndpoint:
                 return
             if module.policy.get("session", "ok") != "ok":
                 self.sim.fired("session_refused")
-                self.reply(build_encap(cmd, 0, ENC_NO_MEM, ctx8, body), {"kind": "register"})
+                junk = 0 if self.sim.stream("dev/refuse").random() < 0.5 else world.new_handle()
+                self.reply(build_encap(cmd, junk, ENC_NO_MEM, ctx8, body), {"kind": "register"})
                 return
             h = world.new_handle()
             while h in module.sessions:
